@@ -424,7 +424,8 @@ func stripRet(name string) string {
 func keepForProperty(prop string, o *Obligation) bool {
 	switch prop {
 	case "C13":
-		return o.Kind == "frame" || strings.Contains(o.Name, "@purity")
+		// frame obligations, and every clause that establishes freshness (the frame proofs lean on those)
+		return o.Kind == "frame" || strings.Contains(o.Name, "@purity") || strings.Contains(o.Src, "fresh(")
 	case "C15":
 		return o.Kind == "safe" || o.Kind == "dec" || o.Kind == "structural" || strings.Contains(o.Name, "@never-nil") || strings.Contains(o.Name, "@error-iff")
 	}
